@@ -9,7 +9,7 @@
 (*                        -> (if accepted) Marshal -> datagram decoder      *)
 EXTENDS Codec, Domain, Faults, Variants, Json
 
-CONSTANTS Mode, KindsUnderTest, FaultDepth, MaxFrames, AllPTs
+CONSTANTS Mode, KindsUnderTest, FaultDepth, MaxFrames, AllPTs, MaxCompound
 VARIABLES pc
 mvars == << vars, pc >>
 
@@ -96,7 +96,15 @@ DgramNext ==
   \/ /\ pc = "decode" /\ Datagram(1, 2, RefDatagram(buf[1])) /\ pc' = "done"
      /\ Emit([script |-> "frames", frames |-> pk[3].frames])
 
-McNext == CASE Mode = "wire" -> WireNext [] Mode = "faults" -> FaultNext [] Mode = "limits" -> LimitsNext
+\* compound: every member sequence through Validate (as automaton), Marshal and Unmarshal (C11)
+CompoundNext ==
+  \/ /\ pc = "build" /\ \E s \in CpSeqs(MaxCompound) : Build(1, [k |-> "CP", pkts |-> CpOf(s)])
+     /\ pc' = "marshal"
+  \/ /\ pc = "marshal" /\ Marshal(1, RefMarshal(pk[1])) /\ pc' = "unmarshal"
+     /\ Emit([script |-> "cp", pkts |-> pk[1].pkts])
+  \/ /\ pc = "unmarshal" /\ prov[1].k # "NONE" /\ Unmarshal("CP", 1, 2, RefDecode("CP", buf[1])) /\ pc' = "done"
+
+McNext == CASE Mode = "compound" -> CompoundNext [] Mode = "wire" -> WireNext [] Mode = "faults" -> FaultNext [] Mode = "limits" -> LimitsNext
             [] Mode = "variants" -> VariantsNext [] Mode = "foreign" -> ForeignNext
             [] Mode = "dispatch" -> DispatchNext [] Mode = "dgram" -> DgramNext
 McSpec == McInit /\ [][McNext]_mvars
@@ -117,6 +125,13 @@ DestStable == (Mode = "wire" /\ pk[1].k # "NONE" /\ pk[2].k \notin {"NONE", "LIS
 FaultStable == (Mode = "faults" /\ pc = "done" /\ pk[2].k = "LIST" /\ (\A i \in 1..Len(pk[2].pkts) : WF(D0, pk[2].pkts[i]))) =>
   /\ pk[3].k = "LIST"
   /\ pk[3].pkts = [i \in 1..Len(pk[2].pkts) |-> Norm(D0, pk[2].pkts[i])]
+\* ---- compound (C11): the Validate automaton accepts exactly the grammar; Marshal succeeds exactly
+\* on valid sequences; what it emits decodes back to the same sequence; CNAME is defined
+AutomatonIsGrammar == (Mode = "compound" /\ pk[1].k = "CP") => (ValidateRun(pk[1].pkts) = Valid(pk[1].pkts))
+CompoundMarshal == (Mode = "compound" /\ pc \in {"unmarshal", "done"}) => ((prov[1].k # "NONE") = Valid(pk[1].pkts))
+CompoundBack == (Mode = "compound" /\ pc = "done") => pk[2] = pk[1]
+CnameDefined == (Mode = "compound" /\ pk[1].k = "CP" /\ Valid(pk[1].pkts)) => Len(CNAMEOf(pk[1].pkts)) \in {1, 3, 4, 5}
+
 \* ---- limits (C08): every boundary value is decided, and never both ways ----
 LimitsDecided == (Mode = "limits" /\ pk[1].k # "NONE") => (WF(D0, pk[1]) # Over(pk[1]))
 LimitsRef == (Mode = "limits" /\ pc = "done") => ((prov[1].k # "NONE") = WF(D0, pk[1]))
